@@ -43,6 +43,10 @@ CONFIGS = [
     {"input": "MATCHED_INSTANCE", "matcher": None, "dm": "IOU", "dt": 0.5, "metrics": ["DSC", "IOU", "ASSD", "RVD"]},
     {"input": "MATCHED_INSTANCE", "matcher": None, "global": ["DSC", "ASSD"]},
     {"input": "UNMATCHED_INSTANCE", "matcher": {"kind": "naive", "metric": "IOU", "thr": 0.5}, "use_default_lists": True},
+    {"input": "UNMATCHED_INSTANCE", "matcher": {"kind": "naive", "metric": "IOU", "thr": 0.2}, "global": ["DSC", "IOU", "RVD"], "std": "ZERO",
+     "handler": {"DSC": ("ONE", "INF", "NONE", "NAN"), "IOU": ("ZERO", "ONE", "INF", "NONE"), "ASSD": ("INF", "ZERO", "ONE", "NAN"), "RVD": ("ONE", "ZERO", "INF", "ONE"), "clDSC": ("NONE", "NAN", "ONE", "ZERO")}},
+    {"input": "SEMANTIC", "backend": "scipy", "matcher": {"kind": "merge", "metric": "IOU", "thr": 0.3}, "global": ["IOU", "ASSD"], "std": "ONE",
+     "handler": {"DSC": ("NAN", "ZERO", "ONE", "INF"), "IOU": ("INF", "NONE", "ZERO", "ONE"), "ASSD": ("ZERO", "INF", "ONE", "NAN")}, "metrics": ["DSC", "IOU"]},
 ]
 
 
@@ -56,6 +60,13 @@ def make_input(seed, k):
         pred = np.zeros_like(pred)
     elif k % 6 == 5:
         refa = np.zeros_like(refa)
+    elif k % 6 == 3:
+        # two references compete for one prediction with exactly equal IoU (1/4 == 2/8) but different sizes:
+        # the outcome is fixed by the documented candidate order, whatever executes the per-pair work
+        refa = np.array([1, 0, 2, 2, 2, 2, 2, 2, 0, 3, 3, 0], dtype=np.uint8)
+        pred = np.array([1, 1, 1, 1, 0, 0, 0, 0, 0, 3, 3, 3], dtype=np.uint8)
+        if k % 12 == 9:
+            pred, refa = refa.copy(), pred.copy()
     return {
         "UNMATCHED_INSTANCE": (pred, refa),
         "SEMANTIC": (pred.astype([np.uint8, np.int16][k % 2]), refa.astype([np.uint8, np.int16][k % 2])),
@@ -127,9 +138,11 @@ class Tracked:
         self.ctor_opts = ctor_opts
         self.ev = pan.make_evaluator(dict(CONFIGS[cfg_idx], **ctor_opts))
         self.tmpdir = tmpdir
+        # what an identically constructed evaluator that was never used advertises and saves
+        fresh = pan.make_evaluator(dict(CONFIGS[cfg_idx], **ctor_opts))
         with pan.quiet():
-            self.keys0 = list(self.ev.resulting_metric_keys)
-        self.text0 = config_text(self.ev, tmpdir)
+            self.keys0 = list(fresh.resulting_metric_keys)
+        self.text0 = config_text(fresh, tmpdir)
 
     def check(self, ctx, step, history):
         with pan.quiet():
